@@ -1029,7 +1029,96 @@ def is_direct_sum_column_block(case):
             and case["rc"][1] == 1 and case["rc"][0] >= 2)
 
 
+# ============================================================================= facet: mse_verdicts (the yardstick as it is applied)
+OK_FACTORS = [[0.5, 1.5, 0.8, 1.2], [0.7, 1.3, 1.1, 0.9], [1.4, 0.6, 1.0, 1.0]]
+NG_FACTORS = [[30.0, 31.0, 29.0, 30.5], [0.01, 0.012, 0.011, 0.009], [8.0, 8.5, 7.5, 8.2]]
+
+
+@st.composite
+def verdict_mse_case(draw, tier):
+    k = draw(st.integers(1, 3))
+    return {
+        "f": "mse_verdicts",
+        "bloch": [draw(st.floats(-0.5, 0.5, allow_nan=False)) for _ in range(3)],
+        "flag": draw(st.booleans()),
+        "num_data": draw(st.lists(st.sampled_from([100, 1000, 10000, 100000]), min_size=k, max_size=k, unique=True)),
+        "agree": [draw(st.booleans()) for _ in range(k)],
+        "pattern": [draw(st.integers(0, 2)) for _ in range(k)],
+        "n_rep": draw(st.integers(3, 4)),
+    }
+
+
+def check_mse_verdicts(case, ctx):
+    """loss_function.mean_squared_error.compare_to_analytical / check_mse_of_estimators (linear estimator): the verdict is
+    True exactly when, for EVERY sample size, |sample MSE - analytical MSE| < 3 sample standard deviations.  The linear
+    estimates are constructed (no random numbers) with prescribed squared errors = factor x analytical MSE, so the per-size
+    verdicts are known with a wide margin: factors averaging 1 (agree) or far from 1 with a small spread (disagree)."""
+    from quara.loss_function import mean_squared_error as mse_check
+    from quara.objects.povm_typical import generate_povm_from_name
+    from quara.objects.state import State
+    from quara.protocol.qtomography.standard.linear_estimator import LinearEstimator
+    from quara.protocol.qtomography.standard.standard_qst import StandardQst
+    from quara.simulation.standard_qtomography_simulation import SimulationResult, StandardQTomographySimulationSetting
+
+    c_sys = build.c_sys_for("1q")
+    flag = bool(case["flag"])
+    povms = [generate_povm_from_name(nm, c_sys) for nm in ("x", "y", "z")]
+    qst = StandardQst(povms, on_para_eq_constraint=flag, schedules="all")
+    bloch = np.asarray(case["bloch"], dtype=float)
+    true_state = State(c_sys, np.hstack([1.0, bloch]) / math.sqrt(2), on_para_eq_constraint=flag)
+    v_true = np.asarray(true_state.to_var(), dtype=float)
+    a_mat, b_vec = np.asarray(qst.calc_matA(), dtype=float), np.asarray(qst.calc_vecB(), dtype=float)
+    num_data, n_rep = list(case["num_data"]), int(case["n_rep"])
+    nv = len(v_true)
+    dirs = [np.eye(nv)[-1 - (k % 3)] * (1.0 if k % 2 == 0 else -1.0) for k in range(n_rep)]
+    analytical = [float(qst.calc_mse_linear_analytical(true_state, [n] * qst.num_schedules)) for n in num_data]
+    factors = [(OK_FACTORS if ag else NG_FACTORS)[pt][:n_rep] for ag, pt in zip(case["agree"], case["pattern"])]
+    seqs = []
+    for k in range(n_rep):
+        seq = []
+        for i, n in enumerate(num_data):
+            v = v_true + math.sqrt(factors[i][k] * analytical[i]) * dirs[k]
+            f = (a_mat @ v + b_vec).reshape(3, 2)
+            if not (np.all(f > 0) and np.allclose(f.sum(axis=1), 1)):
+                ctx.skip("constructed distributions leave the simplex")
+                return
+            seq.append([(n, f[j]) for j in range(3)])
+        seqs.append(seq)
+    est = LinearEstimator()
+    results = [est.calc_estimate_sequence(qst, seq, is_computation_time_required=True) for seq in seqs]
+    setting = StandardQTomographySimulationSetting(
+        name="c19", true_object=true_state, tester_objects=povms, estimator=est, seed_data=None, n_rep=n_rep,
+        num_data=num_data, schedules="all", eps_proj_physical=None, eps_truncate_imaginary_part=None)
+    sim = SimulationResult(estimation_results=results, empi_dists_sequences=seqs, qtomography=qst, simulation_setting=setting)
+    # per-size reference verdicts from the squared errors the estimates really have (margin asserted, not assumed)
+    per = []
+    for i in range(len(num_data)):
+        ses = np.array([float(np.sum((np.asarray(r.estimated_var_sequence[i], dtype=float) - v_true) ** 2)) for r in results])
+        if flag is False:
+            ses = np.array([float(np.sum((np.asarray(r.estimated_qoperation_sequence[i].to_stacked_vector(), dtype=float)
+                                          - np.asarray(true_state.to_stacked_vector(), dtype=float)) ** 2)) for r in results])
+        diff, sd = abs(float(ses.mean()) - analytical[i]), float(ses.std(ddof=1))
+        if not (diff < 0.3 * 3 * sd or diff > 3 * 3 * sd):
+            ctx.skip("per-size verdict within the margin band")
+            return
+        per.append(diff < 3 * sd)
+    want = all(per)
+    ctx.label(f"sizes:{len(num_data)}", "verdicts:" + ("all_agree" if want else "all_disagree" if not any(per) else "mixed"), f"flag:{flag}")
+    got = mse_check.compare_to_analytical(sim.simulation_setting, sim.estimation_results, sim.qtomography, False)
+    ctx.check(bool(got) == want, "compare_to_analytical:verdict_is_all_sizes_agree", f"per-size {per} -> returned {got}")
+    got2 = mse_check.check_mse_of_estimators(sim, False)
+    ctx.check(bool(got2) == want, "check_mse_of_estimators:verdict_is_all_sizes_agree", f"per-size {per} -> returned {got2}")
+    ctx.nontrivial(len(per) >= 2 and any(per) and not all(per))
+
+
 FACETS = {
+    "mse_verdicts": {
+        "strategy": verdict_mse_case,
+        "check": check_mse_verdicts,
+        "budget": {"quick": {"examples": 160, "shards": 4}, "thorough": {"examples": 2000, "shards": 8}},
+        "nontrivial": ">= 2 sample sizes with mixed per-size verdicts (some agree, some do not)",
+        "min_nontrivial": 10,
+    },
     "analytic_exact": {
         "strategy": exact_case,
         "check": check_analytic_exact,
